@@ -37,7 +37,8 @@ var scripts = []script{
 		prefixes: []string{"l'", "L'", "d'", "qu'", "j’", "lorsqu'", "dell'", "all’", "un'", "m'", "b'", "d’", "n-", "h-", "t-", "ge", "un", "re", "'", "’"},
 		words: []string{"the", "and", "a", "of", "to", "le", "la", "les", "de", "der", "die", "das", "und", "el", "los", "que", "il", "lo", "gli", "een", "het", "och", "og", "ja", "on", "és", "şi", "bir", "ve",
 			"running", "houses", "l'avion", "qu'il", "dell'arte", "http://example.com/a?b=c", "user.name+tag@example.org", "@handle", "#hashTag9", "www.x.io/p", "camelCaseWord", "HTTPServer2Go", "ABCdef123ghi", "x1y2", "3.14", "1e9", "0x1F",
-			"Istanbul'da", "Türkiye’nin", "<b>bold</b>", "<a href=\"x\">", "<!doctype html>", "a<b", "&amp;", "naïve", "coöperate", "Straße", "ǅ", "ǈ", "ⱥ", "İ", "ΟΔΟΣ", "ΑΣ"},
+			"Istanbul'da", "Türkiye’nin", "<b>bold</b>", "<a href=\"x\">", "<!doctype html>", "a<b", "&amp;", "naïve", "coöperate", "Straße", "ǅ", "ǈ", "ⱥ", "İ", "ΟΔΟΣ", "ΑΣ",
+			"İstanbul", "aİb", "DİYARBAKIR", "Kelvin", "aKb", "Ωhm", "5Ωx"},
 		seps: []string{" ", " ", " ", "  ", ", ", ". ", "\n", "\t", "-", "_", "'", "’", "/", " - ", "; ", "!", "?", ":", " ", " ", "　", "\u0085", "​", "‌", "\u00ad"}},
 	{name: "arabic", letters: []rune("ابتثجحخدذرزسشصضطظعغفقكلمنهويءآأؤإئةىًٌٍَُِّْـ٠١٢٣٤٥٦٧٨٩"),
 		prefixes: []string{"ال", "وال", "بال", "كال", "فال", "لل", "و"},
@@ -336,6 +337,9 @@ func (h) Gen(r *hlib.Rand, tier string, scale int, emit func(string)) {
 		emit(l)
 	}
 
+	// 1b'. every range of every unicode script table the analysis packages consult (see scripts_sweep.go)
+	genScriptSweep(r, tier, emit)
+
 	// 1c. re-entrancy: ONE value of every analyzer (bundled and x-*) and of every configurable filter used by 8
 	//     goroutines at once, on ideographic / Latin / mixed texts (see conc.go)
 	cjkS, latS := &scripts[len(scripts)-1], &scripts[0]
@@ -466,7 +470,7 @@ func (h) Gen(r *hlib.Rand, tier string, scale int, emit func(string)) {
 
 var stemScript = map[string]string{"de_normalize": "latin", "de_light": "latin", "es_light": "latin", "it_light": "latin", "pt_light": "latin",
 	"fr_light": "latin", "fr_min": "latin", "ar_normalize": "arabic", "ar_stem": "arabic", "fa_normalize": "persian",
-	"ckb_normalize": "sorani", "ckb_stem": "sorani", "hi_normalize": "devanagari", "hi_stem": "devanagari"}
+	"ckb_normalize": "sorani", "ckb_stem": "sorani", "hi_normalize": "devanagari", "hi_stem": "devanagari", "in_normalize": "devanagari"}
 
 var stemExtra = map[string][]string{
 	"de_normalize": {"ß", "aß", "ßß", "ae", "oe", "ue", "aue", "eue", "quelle", "aee", "äöüß", "Maße", "e", "ee", "aeaeae"},
@@ -531,6 +535,31 @@ func genStem(r *hlib.Rand, nStage int, emit func(string)) {
 				b.WriteRune(s.letters[r.Intn(len(s.letters))])
 			}
 			words = append(words, string(l), b.String()+string(l))
+		}
+		if name == "in_normalize" {
+			// sequences over the offsets the decomposition table speaks about, in each of the nine script blocks, with
+			// ZWJ / ZWNJ and a rune of a neighbouring script in second or third place (compose: same-script and 2/3-rune rows)
+			offs := []rune{0x05, 0x06, 0x07, 0x09, 0x0A, 0x0B, 0x0F, 0x10, 0x13, 0x14, 0x15, 0x28, 0x30, 0x33, 0x3C, 0x3E, 0x3F, 0x40, 0x41, 0x42,
+				0x43, 0x45, 0x46, 0x47, 0x48, 0x49, 0x4A, 0x4B, 0x4C, 0x4D, 0x55, 0x56, 0x57, 0x72, 0x73, 0x7C, 0x7F}
+			for i := 0; i < nStage*6+200; i++ {
+				base := rune(0x0900 + 0x80*r.Intn(9))
+				var b strings.Builder
+				for k := r.Range(1, 6); k > 0; k-- {
+					switch r.Weighted(12, 1, 1, 1, 1) {
+					case 0:
+						b.WriteRune(base + offs[r.Intn(len(offs))])
+					case 1:
+						b.WriteRune(0x200D)
+					case 2:
+						b.WriteRune(0x200C)
+					case 3:
+						b.WriteRune(rune(0x0900+0x80*r.Intn(9)) + offs[r.Intn(len(offs))])
+					default:
+						b.WriteRune([]rune{0xA8E0, 0xA8F2, 0xA8FF, 0x11B00, 0x11FC0, 0x1CD0, 0x0964, 'a', 0x0D81}[r.Intn(9)])
+					}
+				}
+				words = append(words, b.String())
+			}
 		}
 		for _, w := range words {
 			emit("stem " + name + " " + hlib.Hex([]byte(w)))
